@@ -608,6 +608,61 @@ def exposed_state(run):
                             "C10_returned_copy_detached")
 
 
+def fitted_params_as_argument_cases(run):
+    """a parameter set that comes out of a fit (it carries lmfit's
+    statistics: stderr, correlations, initial values) handed on as the
+    starting point of another fit: the caller's object keeps its complete
+    state"""
+    from nanite.fit import IndentationFitter
+
+    def state(ps):
+        return [(n_, repr(float(v.value)), v.vary, v.min, v.max, v.expr,
+                 None if v.stderr is None else repr(float(v.stderr)),
+                 None if v.correl is None else sorted(
+                     (k_, repr(float(c_))) for k_, c_ in v.correl.items()),
+                 None if v.init_value is None else repr(float(v.init_value)))
+                for n_, v in ps.items()]
+    with warnings.catch_warnings():
+        warnings.simplefilter("ignore")
+        for api in ("fit_model(other curve)", "fit_model(same curve)",
+                    "IndentationFitter"):
+            sc = f"fitted-params|{api}"
+            payload = {"kind": "fitted-params", "api": api}
+            run.case({"fitted-params": api}, kind="fitted-params")
+            try:
+                a = fitted_curve(5)
+                pa = a.fit_properties["params_fitted"]
+                has_stats = any(v.stderr is not None for v in pa.values())
+                before = state(pa)
+                if api == "fit_model(other curve)":
+                    b = curve(6)
+                    b.apply_preprocessing(list(PIPE))
+                    b.fit_model(model_key="hertz_para", params_initial=pa)
+                elif api == "fit_model(same curve)":
+                    a.fit_model(params_initial=pa, weight_cp=0)
+                else:
+                    b = curve(6)
+                    b.apply_preprocessing(list(PIPE))
+                    IndentationFitter(b, model_key="hertz_para",
+                                      params_initial=pa).fit()
+                after = state(pa)
+            except BaseException as e:
+                run.failing(SITE, sc + "|raised", f"{sc}: raised "
+                            f"{type(e).__name__}: {e}", payload=payload)
+                continue
+            if not has_stats:
+                run.count("fitted-params-without-statistics")
+            if after != before:
+                ch = [b_[0] + ":" + ",".join(
+                    nm for nm, x_, y_ in zip(
+                        ("value", "vary", "min", "max", "expr", "stderr",
+                         "correl", "init_value"), b_[1:], a_[1:]) if x_ != y_)
+                    for b_, a_ in zip(before, after) if b_ != a_]
+                run.failing(SITE, sc + "|mutated", f"{sc}: the parameter set "
+                            f"handed over was modified ({'; '.join(ch)})",
+                            payload=payload, theorem="C10_no_mutation")
+
+
 def emptied_argument_cases(run):
     """an option dictionary / a step list passed once, emptied in place by the
     caller ("back to the defaults" / "back to the raw data") and passed again:
@@ -903,6 +958,7 @@ def check(run):
     returned_objects(run, mirrors)
     exposed_state(run)
     emptied_argument_cases(run)
+    fitted_params_as_argument_cases(run)
     rating_arguments(run)
     array_arguments(run)
     exprs = [e for m in mirrors for (e, _) in m.exprs]
